@@ -76,3 +76,39 @@ def _validate(cio, path):
         e = SBMLInvalid(str(bad)[:300])
         e.verif_name = "SBMLInvalid:" + "+".join(sorted(reasons))
         raise e
+
+
+def save(drv, model, fmt):
+    """Export now; the document is loaded by a later LoadDoc action."""
+    import cobra.io as cio
+    if fmt == "json":
+        return cio.to_json(model)
+    if fmt == "yaml":
+        return cio.to_yaml(model)
+    if fmt == "dict":
+        import copy
+        return copy.deepcopy(cio.model_to_dict(model))
+    if fmt == "pickle":
+        return pickle.dumps(model)
+    fd, path = tempfile.mkstemp(dir=_tmpdir(), suffix=".xml")
+    os.close(fd)
+    try:
+        cio.write_sbml_model(model, path)      # (validity is judged by the RoundTrip variants)
+        with open(path) as fh:
+            return fh.read()
+    finally:
+        os.unlink(path)
+
+
+def load(drv, fmt, doc):
+    import cobra.io as cio
+    if fmt == "json":
+        return cio.from_json(doc)
+    if fmt == "yaml":
+        return cio.from_yaml(doc)
+    if fmt == "dict":
+        import copy
+        return cio.model_from_dict(copy.deepcopy(doc))
+    if fmt == "pickle":
+        return pickle.loads(doc)
+    return cio.read_sbml_model(doc)
